@@ -24,6 +24,33 @@ static void do_kick()
     printf("\nend\n");
 }
 
+// kickseq <id> <dir:x|y> <n> <nb> <it> <steps> ; per step: offs (n*nb) ; data (nb*n*n)
+// ONE KickMap object for the whole sequence (a history: swapOffset()+apply() per step, as the maps that are rebuilt
+// every step are used in a run); prints for step s a case "<id>_s<s>" in the format of `kick`
+static void do_kickseq()
+{
+    std::string id = next();
+    std::string dir = next();
+    unsigned n = nextl(), nb = nextl(), it = nextl(), steps = nextl();
+    auto in = mkps(n, nb);
+    auto out = mkps(n, nb);
+    KickMap km(in, out, static_cast<SourceMap::InterpolationType>(it), false,
+               dir == "x" ? KickMap::Axis::x : KickMap::Axis::y, nullptr);
+    for (unsigned s = 0; s < steps; s++) {
+        std::vector<meshaxis_t> offs(n * nb);
+        for (auto& o : offs) o = nextf();
+        for (size_t i = 0; i < (size_t)nb * n * n; i++) in->getData()[i] = nextf();
+        for (size_t i = 0; i < (size_t)nb * n * n; i++) out->getData()[i] = -7.5f;      // stale output must not survive
+        km.swapOffset(offs);
+        km.apply();
+        printf("case %s_s%u\ntable", id.c_str(), s);
+        for (size_t k = 0; k < (size_t)n * nb * it; k++) { printf(" %u", km._hinfo[k].index); pf(km._hinfo[k].weight); }
+        printf("\nout");
+        for (size_t i = 0; i < (size_t)nb * n * n; i++) pf(out->getData()[i]);
+        printf("\nend\n");
+    }
+}
+
 // coeffs <id> <it> <count> f...   -> weights for each f
 static void do_coeffs()
 {
@@ -124,5 +151,5 @@ static void do_coeffsweep()
 
 int main(int argc, char** argv)
 {
-    return run_main(argc, argv, {{"kick", do_kick}, {"coeffs", do_coeffs}, {"rot", do_rot}, {"coeffsweep", do_coeffsweep}});
+    return run_main(argc, argv, {{"kick", do_kick}, {"kickseq", do_kickseq}, {"coeffs", do_coeffs}, {"rot", do_rot}, {"coeffsweep", do_coeffsweep}});
 }
